@@ -4,6 +4,7 @@ package signaling
 
 import (
 	"bufio"
+	"context"
 	"encoding/json"
 	"fmt"
 	"hash/fnv"
@@ -492,9 +493,11 @@ func c13RunAll(t *testing.T, env verifEnv, cases []*c13Case) map[int]*c13StressR
 		b, _ := json.Marshal(rest)
 		os.WriteFile(batch, b, 0o644)
 		os.Remove(prog)
-		cmd := exec.Command(os.Args[0], "-test.run", "^TestVerifC13$", "-test.count=1", "-test.timeout", "1200s")
+		ctx, cancel := context.WithTimeout(context.Background(), 10*time.Minute)
+		cmd := exec.CommandContext(ctx, os.Args[0], "-test.run", "^TestVerifC13$", "-test.count=1", "-test.timeout", "900s")
 		cmd.Env = append(os.Environ(), "VERIF_C13_CHILD="+batch, "VERIF_C13_PROGRESS="+prog)
 		outBytes, runErr := cmd.CombinedOutput()
+		cancel()
 		done := map[int]bool{}
 		cur, curOp := -1, -1
 		if f, err := os.Open(prog); err == nil {
@@ -658,49 +661,62 @@ func c13Stress(c *c13Case) *c13StressResult {
 	start := time.Now()
 	lastL, lastW := int64(-1), int64(-1)
 	lastProgress := time.Now()
-	for time.Since(start) < dur {
+	finished := make(chan struct{})
+	stopping := false
+	for {
 		time.Sleep(20 * time.Millisecond)
+		if !stopping && time.Since(start) >= dur {
+			// ask the workers to stop; they must all come back
+			stopping = true
+			atomic.StoreInt32(&stop, 1)
+			go func() { wg.Wait(); close(finished) }()
+		}
+		if stopping {
+			select {
+			case <-finished:
+				res.Lookups, res.Writes = atomic.LoadInt64(&lookups), atomic.LoadInt64(&writes)
+				return res
+			default:
+			}
+		}
 		l, w := atomic.LoadInt64(&lookups), atomic.LoadInt64(&writes)
 		if l != lastL || w != lastW {
 			lastL, lastW = l, w
 			lastProgress = time.Now()
-		} else if time.Since(lastProgress) > 1500*time.Millisecond {
-			// no worker made progress for 1.5 s
-			res.Stalled = true
-			res.AfterMs = lastProgress.Sub(start).Milliseconds()
-			buf := make([]byte, 1<<20)
-			n := runtime.Stack(buf, true)
-			dump := string(buf[:n])
-			for _, g := range strings.Split(dump, "\n\n") {
-				switch {
-				case strings.Contains(g, "sync.(*RWMutex).RLock"):
-					res.BlockedR++
-				case strings.Contains(g, "sync.(*RWMutex).Lock"):
-					res.BlockedW++
-				}
-			}
-			var fr []string
-			for _, l := range strings.Split(dump, "\n") {
-				if strings.Contains(l, "signaling.(*backend") || strings.Contains(l, "signaling.(*Backend") {
-					fr = append(fr, strings.TrimSpace(strings.SplitN(l, "(0x", 2)[0]))
-				}
-			}
-			sort.Strings(fr)
-			var uniq []string
-			for i, f := range fr {
-				if i == 0 || fr[i-1] != f {
-					uniq = append(uniq, f)
-				}
-			}
-			res.Goroutines = strings.Join(uniq, "; ")
-			break
+			continue
+		}
+		if time.Since(lastProgress) > 1500*time.Millisecond {
+			break // no worker made progress (or came back) for 1.5 s
 		}
 	}
-	res.Lookups, res.Writes = atomic.LoadInt64(&lookups), atomic.LoadInt64(&writes)
-	if !res.Stalled {
-		atomic.StoreInt32(&stop, 1)
-		wg.Wait()
+	res.Stalled = true
+	res.AfterMs = lastProgress.Sub(start).Milliseconds()
+	buf := make([]byte, 1<<20)
+	n := runtime.Stack(buf, true)
+	dump := string(buf[:n])
+	for _, g := range strings.Split(dump, "\n\n") {
+		switch {
+		case strings.Contains(g, "sync.(*RWMutex).RLock"):
+			res.BlockedR++
+		case strings.Contains(g, "sync.(*RWMutex).Lock"):
+			res.BlockedW++
+		}
 	}
+	var fr []string
+	for _, l := range strings.Split(dump, "\n") {
+		if strings.Contains(l, "signaling.(*backend") || strings.Contains(l, "signaling.(*Backend") {
+			fr = append(fr, strings.TrimSpace(strings.SplitN(l, "(0x", 2)[0]))
+		}
+	}
+	sort.Strings(fr)
+	var uniq []string
+	for i, f := range fr {
+		if i == 0 || fr[i-1] != f {
+			uniq = append(uniq, f)
+		}
+	}
+	res.Goroutines = strings.Join(uniq, "; ")
+	res.Lookups, res.Writes = atomic.LoadInt64(&lookups), atomic.LoadInt64(&writes)
 	return res
 }
 
